@@ -26,6 +26,39 @@ var c17Hostile = []string{
 	"9223372036854775807", "18446744073709551616", "1y1y1y", "999999999999h", "5" + strings.Repeat("0", 40) + "KB", "{{", "{{.a}}", "<a><b>", "%s%n%x",
 }
 
+// c17JSON: an arbitrary JSON value (every kind at every position, incl. null / empty containers inside
+// arrays and objects), nothing canonical about it: C17 compares nothing with the model
+func c17JSON(r *rand.Rand, depth int) string {
+	k := r.Intn(9)
+	if depth <= 0 && k >= 6 {
+		k = r.Intn(6)
+	}
+	switch k {
+	case 0:
+		return "null"
+	case 1:
+		return pick(r, []string{"true", "false"})
+	case 2:
+		return pick(r, []string{"0", "-1", "42", "2.5", "1e3", "-0.0", "9223372036854775808", "1e-400"})
+	case 3, 4, 5:
+		return fmt.Sprintf("%q", pick(r, append(lgValues, "", "é", "a\"b")))
+	case 6, 7:
+		n := r.Intn(4)
+		parts := make([]string, n)
+		for i := range parts {
+			parts[i] = c17JSON(r, depth-1)
+		}
+		return "[" + strings.Join(parts, ",") + "]"
+	default:
+		n := r.Intn(4)
+		parts := make([]string, n)
+		for i := range parts {
+			parts[i] = fmt.Sprintf("%q:%s", pick(r, []string{"a", "b", "lvl", "n", "tags", "x y", "_entry", ""}), c17JSON(r, depth-1))
+		}
+		return "{" + strings.Join(parts, ",") + "}"
+	}
+}
+
 func c17Recs(r *rand.Rand) []LRec {
 	n := r.Intn(6)
 	recs := make([]LRec, n)
@@ -33,9 +66,14 @@ func c17Recs(r *rand.Rand) []LRec {
 	for i := range recs {
 		ts += int64(r.Intn(3)) * 1e9
 		body := pick(r, c17Hostile)
-		switch r.Intn(4) {
+		switch r.Intn(5) {
 		case 0:
 			body = genJSONLine(r)
+		case 4:
+			body = c17JSON(r, 3)
+			if body[0] != '{' && r.Intn(2) == 0 {
+				body = `{"a":` + body + `}`
+			}
 		case 1:
 			body = genLogfmtLine(r)
 		case 2:
@@ -101,6 +139,17 @@ func c17Gen(r *rand.Rand) c17Case {
 		}
 	}
 	t.Query = q
+	// documents of the kind the query's parser stage reads
+	if strings.Contains(q, "json") || strings.Contains(q, "unpack") {
+		for i := range t.Recs {
+			if r.Intn(2) == 0 {
+				t.Recs[i].Body = c17JSON(r, 3)
+				if t.Recs[i].Body[0] != '{' {
+					t.Recs[i].Body = `{"a":` + t.Recs[i].Body + `,"tags":` + c17JSON(r, 2) + `}`
+				}
+			}
+		}
+	}
 	start := mT0 + int64(r.Intn(5))
 	if r.Intn(2) == 0 {
 		t.Start, t.End, t.Step = start*1e9, start*1e9, 0
@@ -113,7 +162,7 @@ func c17Gen(r *rand.Rand) c17Case {
 
 func init() {
 	props["C17"] = func(c *Ctx) {
-		c.Res.Rule = "exploration: query = grammar-derived log or metric query (all stage kinds, aggregations, binary operations), 0-2 token-level mutations (deletion, substitution, insertion, swap), or random bytes; logs = hostile contents (deep/truncated JSON, extreme and malformed numbers, huge integers, lone surrogates, malformed logfmt, long SGR sequences, many-dotted and colon runs, invalid UTF-8, long lines) and label values; instant or positive-step parameters; every evaluation under recover() and a 10 s watchdog; a case counts as non-trivial when evaluation gets past parsing; nothing is compared with the model except that no panic and no timeout occurs"
+		c.Res.Rule = "exploration: query = grammar-derived log or metric query (all stage kinds, aggregations, binary operations), 0-2 token-level mutations (deletion, substitution, insertion, swap), or random bytes; logs = hostile contents (deep/truncated JSON, arbitrary JSON documents with every value kind at every position, extreme and malformed numbers, huge integers, lone surrogates, malformed logfmt, long SGR sequences, many-dotted and colon runs, invalid UTF-8, long lines) and label values; instant or positive-step parameters; every evaluation under recover() and a 10 s watchdog; a case counts as non-trivial when evaluation gets past parsing; nothing is compared with the model except that no panic and no timeout occurs"
 		spec := &Spec[c17Case]{
 			What: "Engine.Eval terminates without panic (recover + watchdog)",
 			Gen:  c17Gen,
